@@ -1,6 +1,7 @@
 package engine
 
 import (
+	"go/token"
 	"fmt"
 	"os"
 	"go/ast"
@@ -290,6 +291,24 @@ func (u *Unit) loopHeader(fc *frameCtx, fi *fnInfo, li *loopInfo, st *State, pc 
 	for _, p := range phis {
 		if p.Comment == "rangeindex" {
 			u.assume(pc, c.Le(c.Int(-1), newVals[p].T))
+			// ... and never pass the length that the range statement evaluated once before the loop: the header is
+			//   i = phi + 1; if i < n (n defined outside the loop)
+			for _, in := range li.header.Instrs {
+				cmp, ok := in.(*ssa.BinOp)
+				if !ok || cmp.Op != token.LSS {
+					continue
+				}
+				inc, ok := cmp.X.(*ssa.BinOp)
+				if !ok || inc.Op != token.ADD || inc.X != ssa.Value(p) {
+					continue
+				}
+				if def, isInstr := cmp.Y.(ssa.Instruction); isInstr && def.Block() != nil && li.blocks[def.Block()] {
+					continue
+				}
+				if n, ok := fc.vals[cmp.Y]; ok && n.T != nil && n.T.Sort == SInt {
+					u.assume(pc, c.Lt(newVals[p].T, c.Ite(c.Le(c.Int(0), n.T), n.T, c.Int(0))))
+				}
+			}
 		}
 	}
 	// 4. assume the invariant for an arbitrary iteration
